@@ -75,6 +75,13 @@ Theorem C15_src_reflink_unsupported_errnos : forall e, e <> 0%N ->
   existsb (N.eqb e) x_reflink_unsupported_errnos = match classify_clone e with ClUnsup => true | _ => false end.
 Proof. exact x_reflink_unsupported_ok. Qed.
 
+Theorem C15_src_try_reflink_table : forall m, m < 3 ->
+  fst (try_reflink (mode_of_code m) ClOk) = x_try_reflink_issues_clone m /\
+  rl_code (snd (try_reflink (mode_of_code m) ClOk)) = x_try_reflink m true /\
+  rl_code (snd (try_reflink (mode_of_code m) ClUnsup)) = x_try_reflink m false /\
+  (forall e, rl_code (snd (try_reflink (mode_of_code m) (ClErr e))) = if x_try_reflink_issues_clone m then 2 else 0).
+Proof. exact x_try_reflink_ok. Qed.
+
 Print Assumptions C15_never_no_clone.
 Print Assumptions C15_always_ok_iff_cloned.
 Print Assumptions C15_always_unsupported_fails.
@@ -83,3 +90,4 @@ Print Assumptions C15_auto_fallback_is_plain_copy.
 Print Assumptions C15_hard_error_fatal.
 Print Assumptions C15_clone_unsupported_errnos.
 Print Assumptions C15_src_reflink_unsupported_errnos.
+Print Assumptions C15_src_try_reflink_table.
